@@ -1,3 +1,6 @@
+import os
+
+import vlib
 from check import Prop
 
 
@@ -16,6 +19,24 @@ class C08(Prop):
     rule = "work in progress"
     trusted_base = ["Coq 8.16.1 kernel + VM (vm_compute for cases)", "in-package Go driver zz_verif_c08_test.go"]
     assumptions = []
+
+    def generate(self, ctx):
+        """Translator: reflect over the real conf types (in-package test) -> coq/gen/C08_ConfSchema.v."""
+        out = os.path.join(ctx.workdir, "C08_ConfSchema.v")
+        if os.path.exists(out):
+            os.remove(out)
+        rc, log = vlib.run_driver(ctx.workdir, "internal/conf", "TestVerifC08Schema", {"VERIF_OUT": out}, timeout=600)
+        if rc != 0 or not os.path.exists(out):
+            raise RuntimeError("schema translator failed (rc=%d):\n%s" % (rc, log[-3000:]))
+        txt = open(out).read()
+        dst = os.path.join(vlib.ensure_dir(os.path.join(vlib.COQ, "gen")), "C08_ConfSchema.v")
+        old = open(dst).read() if os.path.exists(dst) else None
+        if old != txt:
+            with open(dst, "w") as fh:
+                fh.write(txt)
+        notes = [l[3:-3].strip() for l in txt.split("\n") if l.startswith("(* NOTE ") or l.startswith("(* types with JSON")]
+        notes.append("C08_ConfSchema.v: %d fields" % txt.count("(* "))
+        return notes
 
 
 PROP = C08()
